@@ -9,7 +9,9 @@ Open Scope Z_scope.
    batch_size, X, args.                                                                  *)
 Record call := Call {
   c_kind : okind; c_heads : nat; c_state : mstate; c_b : Z; c_X : list row; c_args : list arg;
-  c_adt : list nat (* dtype code of every arg as given by the caller *) }.
+  c_adt : list nat (* dtype code of every arg as given by the caller *);
+  c_odt : nat (* dtype code of the tensors the module returns *);
+  c_oshape : list Z (* their trailing dimensions (after the batch dimension) *) }.
 
 (* observed: the returned value (or "raised") and the trace of forward calls *)
 Definition outcome := (res yval * list callrec)%type.
@@ -100,12 +102,30 @@ Definition callrec_eqb (a b : callrec) : bool :=
 Definition outcome_eqb (a b : outcome) : bool :=
   res_eqb yval_eqb (fst a) (fst b) && list_eqb callrec_eqb (snd a) (snd b).
 
+(* "returns exactly the concatenation of model(...)": every returned tensor has the dtype the
+   module produces and the shape (n, trailing dims the module produces).  torch.cat / .cpu() are
+   not modelled, so this clause is evaluated on the observed (dtype code, shape) of every returned
+   tensor only (like "inputs not modified").                                                 *)
+Definition meta_eqb (a b : nat * list Z) : bool :=
+  (fst a =? fst b)%nat && list_eqb Z.eqb (snd a) (snd b).
+
+Definition outmeta_ok (c : call) (o : outcome) (obs : list (nat * list Z)) : bool :=
+  if in_scope c && args_aligned c then
+    let want := (c_odt c, Z.of_nat (length (c_X c)) :: c_oshape c) in
+    match fst o with
+    | Ok (YT _) => list_eqb meta_eqb obs [want]
+    | Ok (YM hs) => list_eqb meta_eqb obs (map (fun _ => want) hs)
+    | Err => true
+    end
+  else true.
+
 (* one correspondence case: the call, what the implementation did (value + full call trace),
-   whether X and every arg were bit-identical after the call, and whether the module's buffers
+   whether X and every arg were bit-identical after the call, whether the module's buffers
    (batch-norm running statistics, batch counter) were bit-identical after the call -- a forward
-   in evaluation mode never touches them                                                    *)
-Definition case := (call * outcome * bool * bool)%type.
+   in evaluation mode never touches them --, and the (dtype, shape) of every returned tensor *)
+Definition case := (call * outcome * bool * bool * list (nat * list Z))%type.
 
 Definition check_case (c : case) : nat :=
-  let '(cl, o, unchanged, buffers_unchanged) := c in
-  verdict (outcome_eqb o (model cl)) (unchanged && buffers_unchanged && spec_ok cl o).
+  let '(cl, o, unchanged, buffers_unchanged, obs) := c in
+  verdict (outcome_eqb o (model cl))
+          (unchanged && buffers_unchanged && spec_ok cl o && outmeta_ok cl o obs).
